@@ -39,6 +39,12 @@ def newBlockFirst (t : PTable) : Nat × PTable :=
 def newBlockAll (t : PTable) : PTable :=
   { t.pushFree (t.ipb * t.blocks) (t.ipb - 1 + 1) with blocks := t.blocks + 1 }
 
+/-- PoolMap, the fill loop pushing on a (null) LOCAL instead of `freeItem`: a new block of `ipb` items chained through `prev` in
+    ascending order (the first one's `prev` is null); `freeItem` is not touched; the local ends as the last item
+    `ipb * blocks + (ipb - 1)` -/
+def newBlockLocal (t : PTable) : PTable :=
+  { (({ t with freeItem := none } : PTable).pushFree (t.ipb * t.blocks) (t.ipb - 1 + 1)) with freeItem := t.freeItem, blocks := t.blocks + 1 }
+
 end PTable
 
 /-- the iterator `find` returns: the item, or `end()` of the object -/
